@@ -2,6 +2,7 @@
   C04 — decoders never panic, abort or overflow, whatever the bytes.
 -/
 import Fx.Lemmas.NoPanic
+import Fx.Lemmas.EmitPlans
 namespace Fx.C04
 open Fx
 
@@ -19,6 +20,14 @@ theorem C04_no_panic_entry (a : Ast) (p : Plans) (hp : p.Ok = true) (name : Stri
     (hn : (p.findImpl name).isSome = true) (c : Cur) :
     (decodeByValue a p name c).isBad = false ∧ (decodeRefMut a p name c).isBad = false :=
   ⟨C04_no_panic a p hp name hn _ c, C04_no_panic a p hp name hn _ c⟩
+
+/-- **Specification level**: for every `Ast` in the supported subset (`Supported`, a decidable predicate read off the
+    declarations) for which generation succeeds, every declared type, every fuel and EVERY byte string: the generated
+    decoders — both families — never reach `panic` or `abort`. -/
+theorem C04_no_panic_supported (a : Ast) (m : Module) (hs : Supported a = true) (hg : generateModule a = .ok m)
+    (name : String) (hn : declared a name = true) (fuel : Nat) (c : Cur) :
+    (evalImpl a m.plans fuel name c).isBad = false :=
+  C04_no_panic a m.plans (supported_plans hs hg).1 name ((plansFor_of_supported hs hg).declared_has_impl name hn) fuel c
 
 /-- every reader of the runtime is panic-free on every buffer (the lemmas the induction rests on) -/
 theorem C04_readers (c : Cur) (n : Nat) (m : Option Nat) :
